@@ -116,6 +116,14 @@ def _expected(kind, val, ext, is_path):
     return ("method", method)
 
 
+class Named(io.BytesIO):
+    """A file object whose .name is not a path (tempfile.TemporaryFile: the integer fd; SpooledTemporaryFile: None)."""
+
+    def __init__(self, data, name):
+        super().__init__(data)
+        self.name = name
+
+
 class NoPeek(io.BytesIO):
     def __getattribute__(self, name):
         if name == "peek":
@@ -175,6 +183,8 @@ def _one_config(obj_name, target, ci, ext, proto):
                     loads.append(("renamed to %r" % other, joblib.load(p2)))
             loads.append(("file object", joblib.load(io.BytesIO(data))))
             loads.append(("file object without peek", joblib.load(NoPeek(data))))
+            loads.append(("file object named by its fd", joblib.load(Named(data, 7))))
+            loads.append(("file object with name None", joblib.load(Named(data, None))))
         except Exception as e:
             probs.append("load failed (%s so far ok): %s: %s" % ([n for n, _ in loads], type(e).__name__, e))
             return probs
